@@ -52,6 +52,9 @@ type c07Req struct {
 	resp   *dns.Msg
 	err    error
 	stream int
+
+	// ecs is the client-subnet option of the request ("" = none).
+	ecs string
 }
 
 type c07Upstream struct {
@@ -235,6 +238,7 @@ func c07Serve(w *world.World, srv *agd.Server, r *c07Req, dispose bool) (resp *d
 		req.SetEdns0(1232, false)
 		req.IsEdns0().Option = append(req.IsEdns0().Option, &dns.EDNS0_LOCAL{Code: 65074, Data: []byte(r.prof.dev)})
 	}
+	addECS(req, r.ecs)
 	out, err := w.Serve(context.Background(), &world.Request{
 		Server: srv, Remote: netip.AddrPortFrom(r.client, 5353), Msg: req, Dispose: dispose,
 	})
@@ -318,6 +322,9 @@ func runC07(s *kernel.Sim, cfg string) {
 			if t.Chance(1, 6, "debug-query") {
 				r.qclass = dns.ClassCHAOS
 			}
+			if t.Chance(1, 5, "client-subnet") {
+				r.ecs = kernel.Pick(t, []string{"192.0.2.0/24", "198.51.100.0/24", "0.0.0.0/0", "2001:db8:a::/48"}, "ecs")
+			}
 			switch t.Choose(7, "name-kind") {
 			case 6:
 				r.name = fmt.Sprintf("cnamerw-%d.example.", t.Choose(3, "shared"))
@@ -367,7 +374,7 @@ func runC07(s *kernel.Sim, cfg string) {
 	// ---- the reference: every request alone in a fresh stack ----
 	refUp := &c07Upstream{}
 	for _, r := range all {
-		rw, rsrv := c07World(profs, refUp, false)
+		rw, rsrv := c07World(profs, refUp, true)
 		want, werr := c07Serve(rw, rsrv, r, false)
 		who := "anonymous"
 		if r.prof != nil {
@@ -513,6 +520,7 @@ func c07ThroughServers(s *kernel.Sim, w *world.World, srv *agd.Server, streams [
 					req.SetEdns0(1232, false)
 					req.IsEdns0().Option = append(req.IsEdns0().Option, &dns.EDNS0_LOCAL{Code: 65074, Data: []byte(r.prof.dev)})
 				}
+				addECS(req, r.ecs)
 				b, err := req.Pack()
 				if err != nil {
 					panic(err)
@@ -588,4 +596,25 @@ func c07ThroughServers(s *kernel.Sim, w *world.World, srv *agd.Server, streams [
 	}
 	wg.Wait()
 	s.Probe("streams-through-real-servers")
+}
+
+
+// addECS gives the request a client-subnet option.
+func addECS(req *dns.Msg, ecs string) {
+	if ecs == "" {
+		return
+	}
+	p := netip.MustParsePrefix(ecs)
+	opt := req.IsEdns0()
+	if opt == nil {
+		req.SetEdns0(1232, false)
+		opt = req.IsEdns0()
+	}
+	fam := uint16(1)
+	if p.Addr().Is6() {
+		fam = 2
+	}
+	opt.Option = append(opt.Option, &dns.EDNS0_SUBNET{
+		Code: dns.EDNS0SUBNET, Family: fam, SourceNetmask: uint8(p.Bits()), Address: p.Addr().AsSlice(),
+	})
 }
